@@ -6,6 +6,9 @@ Correspondence: Wigner3jCalculator.calculate vs Model.W3j.calculate bitwise (exh
 samples to j=400), Wigner3j / clebsch_gordan front ends.  Gap monitor: exact Racah formula."""
 import math
 
+import json
+import os
+
 import numpy as np
 
 from .. import kern, oracle
@@ -40,7 +43,7 @@ def targeted(rng, n, jmax):
     return out
 
 
-def gap_calculate(run, cases, tol_small=1e-12, tol_big=1e-9):
+def gap_calculate(run, cases, tol_small=1e-12, tol_big=1e-9, full_family=False):
     import spherical
     calcs = {}
     worst = 0.0
@@ -56,7 +59,7 @@ def gap_calculate(run, cases, tol_small=1e-12, tol_big=1e-9):
             continue
         m1 = -(m2 + m3)
         tol = tol_small if max(j2, j3, j2 + j3) <= 16 else tol_big
-        j1s = range(0, j2 + j3 + 1) if j2 + j3 <= 40 else sorted({0, abs(j2 - j3), max(abs(j2 - j3), abs(m1)), (abs(j2 - j3) + j2 + j3) // 2, j2 + j3 - 1, j2 + j3} |
+        j1s = range(0, j2 + j3 + 1) if (j2 + j3 <= 40 or full_family) else sorted({0, abs(j2 - j3), max(abs(j2 - j3), abs(m1)), (abs(j2 - j3) + j2 + j3) // 2, j2 + j3 - 1, j2 + j3} |
                                                               {run.rng.randint(0, j2 + j3) for _ in range(4)})
         for j1 in j1s:
             if j1 < 0 or j1 > j2 + j3:
@@ -163,6 +166,15 @@ def check(run):
     Jg = 6 if quick else 12
     gap_calculate(run, [("exhaustive", *c) for c in exhaustive_cases(Jg)])
     gap_calculate(run, tg)
+    # non-trivial zeros: argument sets whose family contains an exact zero strictly inside the admissible j1 range that no selection rule
+    # forces (corpus tools/w3j_zero_corpus.py -> vlib/data/w3j_nontrivial_zeros.json, found with the library, confirmed with the exact Racah
+    # sum).  There the forward and backward recurrences may have to meet on a vanishing term; the whole family is compared with the oracle.
+    zpath = os.path.join(os.path.dirname(os.path.abspath(__file__)), "..", "data", "w3j_nontrivial_zeros.json")
+    if os.path.exists(zpath):
+        zc = json.load(open(zpath))["cases"]
+        zc.sort(key=lambda c: (c[0] + c[1], c))
+        pick = zc[-(250 if quick else 2500):] + [zc[i] for i in range(0, len(zc), max(1, len(zc) // (100 if quick else 1000)))]
+        gap_calculate(run, [("nontrivial-zero", j2, j3, m2, m3) for (j2, j3, m2, m3, _j1) in pick], full_family=True)
     gap_front_ends(run, 400 if quick else 4000, 400)
     run.assumptions += ["identification of the Luscombe-Luban solution with the Racah 3-j symbol and the 1e-9/1e-12 bounds are checked by the oracle only",
                         "int32 arguments are promoted to int64 for arithmetic by numba; the declared return type of B truncates (generated B_ret)"]
